@@ -96,7 +96,7 @@ def work(item):
             subs.append(parent)
             for k in range(1, nsub):
                 if k % 2 == 1:          # nested child with finer spacing inside the parent
-                    fac = rng.choice([2, 5, 10])
+                    fac = rng.choice([f_ for f_ in (2, 5, 10) if not any(abs(dl0 / f_ - s_['dlat']) < 1e-9 for s_ in subs)])      # overlapping sub-grids never share a spacing: "the finest one" is then well defined
                     r_lo, c_lo = rng.randint(1, parent['rows'] - 4), rng.randint(1, parent['cols'] - 4)
                     subs.append(dict(name='CHILD%d' % k, parent='PARENT', s=s0 + r_lo * dl0, e=e0 + c_lo * dn0, dlat=dl0 / fac, dlon=dn0 / fac,
                                      rows=rng.randint(3, 2 * fac) + 1, cols=rng.randint(3, 2 * fac) + 1, fields=poly_fields(rng, kind)))
@@ -107,8 +107,9 @@ def work(item):
                 # a grandchild nested in the first child (three levels over the same ground), and the file order shuffled:
                 # the finest sub-grid containing the point has to win whatever the order of the sub-grids in the file
                 ch = subs[1]
-                if ch['rows'] >= 5 and ch['cols'] >= 5:
-                    f2 = rng.choice([2, 3])
+                f2s = [f_ for f_ in (2, 3) if not any(abs(ch['dlat'] / f_ - s_['dlat']) < 1e-9 for s_ in subs)]
+                if ch['rows'] >= 5 and ch['cols'] >= 5 and f2s:
+                    f2 = rng.choice(f2s)
                     subs.append(dict(name='GRAND', parent=ch['name'], s=ch['s'] + ch['dlat'], e=ch['e'] + ch['dlon'], dlat=ch['dlat'] / f2, dlon=ch['dlon'] / f2,
                                      rows=rng.randint(3, 2 * f2) + 1, cols=rng.randint(3, 2 * f2) + 1, fields=poly_fields(rng, kind)))
                 rng.shuffle(subs)
